@@ -12,6 +12,8 @@ from .common import Report, finish
 PROPS = {
     "C01": "analysis.props.p_c01",
     "C06": "analysis.props.p_c06",
+    "C08": "analysis.props.p_c08",
+    "C09": "analysis.props.p_c09",
     "C11": "analysis.props.p_c11",
     "C12": "analysis.props.p_c12",
     "C15": "analysis.props.p_c15",
